@@ -154,7 +154,7 @@ static int h_drain(hPeer *p, unsigned char *out, int cap)
 /* Run the handshake to completion between c and s. Returns 0 when both done. */
 static int h_handshake(hPeer *c, hPeer *s)
 {
-    static unsigned char wire[1 << 17];
+    static __thread unsigned char wire[1 << 17];
     int i, n;
     for (i = 0; i < 40; i++)
     {
